@@ -280,3 +280,167 @@ func RandomProgram(seed uint64, o RandomOpts) *Program {
 	}
 	return p
 }
+
+// FieldKeys lists, for every field reachable from the selected roots, its two option keys: the full
+// path (Root.Field.Sub, README form) and Message.Field.
+func (p *Program) FieldKeys() (paths, typeKeys []string) {
+	seenP, seenT := map[string]bool{}, map[string]bool{}
+	cfg := &Config{}
+	var walk func(n *Node)
+	walk = func(n *Node) {
+		for _, e := range n.Entries {
+			if e.Placeholder {
+				continue
+			}
+			if !seenP[e.Path] {
+				seenP[e.Path] = true
+				paths = append(paths, e.Path)
+			}
+			if !seenT[e.TypeKey] {
+				seenT[e.TypeKey] = true
+				typeKeys = append(typeKeys, e.TypeKey)
+			}
+			if e.Child != nil {
+				walk(e.Child)
+			}
+		}
+	}
+	for _, r := range p.Config.Types {
+		if p.Msg(r) != nil {
+			walk(p.View(r, cfg))
+		}
+	}
+	sort.Strings(paths)
+	sort.Strings(typeKeys)
+	return
+}
+
+// RandomConfig draws a configuration for program p that exercises every option: both key forms, keys
+// aimed at the same field through both forms, overlapping / partially matching map keys, option values
+// that coincide. It is meant for the generator simulator (the output need not compile).
+func RandomConfig(p *Program, seed uint64) Config {
+	r := &rnd{s: seed}
+	c := Config{}
+	// types: all roots, or a non-empty subset
+	roots := append([]string{}, p.Config.Types...)
+	if r.p(1, 3) && len(roots) > 1 {
+		k := 1 + r.n(len(roots)-1)
+		for i := len(roots) - 1; i > 0; i-- {
+			j := r.n(i + 1)
+			roots[i], roots[j] = roots[j], roots[i]
+		}
+		roots = roots[:k]
+		sort.Strings(roots)
+	}
+	c.Types = roots
+	q := &Program{Messages: p.Messages, Enums: p.Enums, Package: p.Package, File: p.File, Config: Config{Types: roots}}
+	paths, tkeys := q.FieldKeys()
+	pickKeys := func(n int) []string {
+		set := map[string]bool{}
+		for i := 0; i < n*3 && len(set) < n; i++ {
+			if r.p(1, 2) && len(paths) > 0 {
+				set[paths[r.n(len(paths))]] = true
+			} else if len(tkeys) > 0 {
+				set[tkeys[r.n(len(tkeys))]] = true
+			}
+		}
+		out := make([]string, 0, len(set))
+		for k := range set {
+			out = append(out, k)
+		}
+		sort.Strings(out)
+		return out
+	}
+	// the same field through both forms
+	both := func() (string, string) {
+		for i := 0; i < 20 && len(paths) > 0; i++ {
+			pk := paths[r.n(len(paths))]
+			// Root.F.X  <->  M.X : find the type key with the same last component whose message is F's type
+			for _, tk := range tkeys {
+				if pk != tk && lastComp(pk) == lastComp(tk) {
+					return pk, tk
+				}
+			}
+		}
+		return "", ""
+	}
+	c.ExcludeFields = pickKeys(r.n(3))
+	c.ComputedFields = pickKeys(2 + r.n(3))
+	c.RequiredFields = pickKeys(2 + r.n(2))
+	c.SensitiveFields = pickKeys(2 + r.n(2))
+	c.Sort = r.p(1, 2)
+	c.UseStateForUnknownByDefault = r.p(1, 2)
+	c.TimeType, c.DurationType, c.DurationCustomType = SimTimeType, SimDurationType, DurationCastName
+	switch r.n(4) {
+	case 0:
+		c.TargetPackageName, c.DefaultPackageName = "samepkg", "samepkg"
+	case 1:
+		c.TargetPackageName, c.DefaultPackageName = "outpkg", "example.com/api/types"
+	case 2:
+		c.TargetPackageName = "onlytarget"
+	case 3:
+		c.DefaultPackageName = "types"
+	}
+	c.NameOverrides = map[string]string{}
+	for i, k := range pickKeys(2) {
+		c.NameOverrides[k] = "ov_" + letters(i)
+	}
+	c.Validators, c.PlanModifiers = map[string][]string{}, map[string][]string{}
+	for i, k := range pickKeys(2 + r.n(2)) {
+		n := 1 + r.n(3)
+		for j := 0; j < n; j++ {
+			c.Validators[k] = append(c.Validators[k], fmt.Sprintf("UseValidator%s%d()", letters(i), j))
+		}
+	}
+	for i, k := range pickKeys(2 + r.n(2)) {
+		n := 1 + r.n(3)
+		for j := 0; j < n; j++ {
+			c.PlanModifiers[k] = append(c.PlanModifiers[k], fmt.Sprintf("Modifier%s%d()", letters(i), j))
+		}
+	}
+	if pk, tk := both(); pk != "" {
+		c.Validators[pk], c.Validators[tk] = []string{"UsePathValidator()"}, []string{"UseTypeValidator()", "UseSimValidator()"}
+		c.PlanModifiers[pk], c.PlanModifiers[tk] = []string{"PathModifier()"}, []string{"TypeModifier()"}
+		c.NameOverrides[pk], c.NameOverrides[tk] = "name_by_path", "name_by_type"
+	}
+	c.SchemaTypes = map[string]SchemaType{}
+	for _, k := range pickKeys(2) {
+		c.SchemaTypes[k] = SchemaType{Type: "SimStrType", ValueType: "SimStrValue", CastToType: "string", CastFromType: "string"}
+	}
+	c.CustomTypes, c.Suffixes = map[string]string{}, map[string]string{}
+	for i, k := range pickKeys(2 + r.n(2)) {
+		switch i % 3 {
+		case 0:
+			c.CustomTypes[k] = "example.com/x/wrappers.Traits"
+			c.Suffixes["Traits"], c.Suffixes["wrappers.Traits"], c.Suffixes["x/wrappers.Traits"] = "AnyTraits", "WrappersTraits", "XWrappersTraits"
+		case 1:
+			c.CustomTypes[k] = "CustomBool"
+			c.Suffixes["CustomBool"] = "BoolSpecial"
+		default:
+			c.CustomTypes[k] = "example.com/x/wrappers.Labels"
+			c.Suffixes["Labels"], c.Suffixes["example.com/x/wrappers.Label"] = "L", "Prefix"
+		}
+	}
+	c.ImportPathOverrides = map[string]string{"example.com/api/types": "example.com/moved/types", "example.com/api": "example.com/moved", "types": "example.com/short/types",
+		"example.com/x/wrappers": "example.com/y/wrappers"}
+	c.InjectedFields = map[string][]Injected{}
+	for i, root := range roots {
+		if i < 2 || r.p(1, 3) {
+			c.InjectedFields[root] = []Injected{{Name: "id", Type: "github.com/hashicorp/terraform-plugin-framework/types.StringType", Computed: true}}
+			if r.p(1, 2) {
+				c.InjectedFields[root] = append(c.InjectedFields[root], Injected{Name: "extra", Type: "github.com/hashicorp/terraform-plugin-framework/types.Int64Type", Optional: true,
+					Validators: []string{"UseSimValidator()"}, PlanModifiers: []string{"github.com/hashicorp/terraform-plugin-framework/tfsdk.UseStateForUnknown()"}})
+			}
+		}
+	}
+	return c
+}
+
+func lastComp(k string) string {
+	for i := len(k) - 1; i >= 0; i-- {
+		if k[i] == '.' {
+			return k[i+1:]
+		}
+	}
+	return k
+}
